@@ -164,9 +164,26 @@ func runWalkMulti(c *core.Ctx) {
 	}
 	// elementRecursion: slice value sl is indexed in a loop and the element is
 	// passed to a call that reaches target.
+	var elementRecursionD func(fn *ssa.Function, sl ssa.Value, target *ssa.Function, depth int) (bool, bool)
 	elementRecursion := func(fn *ssa.Function, sl ssa.Value, target *ssa.Function) (bool, bool) {
+		return elementRecursionD(fn, sl, target, 0)
+	}
+	elementRecursionD = func(fn *ssa.Function, sl ssa.Value, target *ssa.Function, depth int) (bool, bool) {
 		found, forward := false, false
 		for _, ref := range *sl.Referrers() {
+			// the slice handed whole to an unexported helper of the same package: the helper's loop counts
+			if hc, isCall := ref.(*ssa.Call); isCall && depth < 2 {
+				if h := sx.Callee(hc); h != nil && h != target && h.Blocks != nil && h.Pkg == fn.Pkg && !sx.Exported(h) {
+					for ai, a := range hc.Call.Args {
+						if a == sl && ai < len(h.Params) {
+							if rec, fwd := elementRecursionD(h, h.Params[ai], target, depth+1); rec {
+								found, forward = true, forward || fwd
+							}
+						}
+					}
+				}
+				continue
+			}
 			ia, ok := ref.(*ssa.IndexAddr)
 			if !ok {
 				continue
